@@ -1,6 +1,8 @@
 #!/usr/bin/env python3
 """tie for the Scanner-newline model update: real scanner (harness `compile`) vs Scanner.v/Parser.v on sources with raw line
-breaks inside \\x/\\u/\\U escapes (family esc) and right after `\\` / `$` (family swallow)."""
+breaks inside \\x/\\u/\\U escapes (family esc, /repo 914ba97) and right after `\\` / `$` (family swallow, /repo e81033c).
+Compared: first message, last message (`var = 2;` after the literal), and for every model token: tline = 1 + newline bytes before
+ScannerLineExact.token_offset (Spec, computed here from the source text)."""
 import random, re, subprocess, sys, os
 seed = int(sys.argv[1]) if len(sys.argv) > 1 else 0
 N = int(sys.argv[2]) if len(sys.argv) > 2 else 300
@@ -54,7 +56,7 @@ os.makedirs("/tmp/scanner-newline-tie", exist_ok=True)
 path = "/tmp/scanner-newline-tie/cases.v"
 with open(path, "w") as fh:
     fh.write("From YV Require Import Show Scanner Parser ParseRun ScannerLineExact.\nFrom Coq Require Import String List NArith.\nImport ListNotations.\nOpen Scope string_scope.\nSet Printing Width 1000000.\nSet Printing Depth 1000000.\n")
-    fh.write('Definition tie (h : string) : string := let src := bytes_of_hex h in show_presult (parse_source src) ++ "|" ++ show_sep " " (fun te => show_nat (tkind_index (tk (fst te))) ++ ":" ++ show_N (tline (fst te)) ++ ":" ++ show_nat (snd te)) (scan_ends src).\n')
+    fh.write('Definition tie (h : string) : string := let src := bytes_of_hex h in show_presult (parse_source src) ++ "|" ++ show_sep " " (fun te => show_nat (tkind_index (tk (fst te))) ++ ":" ++ show_N (tline (fst te)) ++ ":" ++ show_nat (token_offset src te)) (scan_ends src).\n')
     for _, s in cases:
         fh.write('Eval vm_compute in (tie "%s").\n' % s.encode().hex())
 p = subprocess.run("cd /verif/coq && timeout 900 coqc -noglob -Q theories YV -Q gen YVGen %s" % path, shell=True, capture_output=True, text=True)
@@ -96,7 +98,7 @@ for (fam, src), msgs, v in zip(cases, real, vals):
         if line == 1 + raw[:e].count(b"\n"): st["spec_exact_tokens"] += 1
         else: st["spec_short_tokens"] += 1; ex = False
     st["cases_all_exact" if ex else "cases_with_deficit"] += 1
-    if fam == "esc" and ex is False: bad.append((fam, src, "deficit in esc family", toks))
+    if ex is False: bad.append((fam, src, "token line differs from 1 + newlines before its offset", toks))
     if re.search(r'\\[xuU][0-9a-fA-F\r]*\n', src): st["lf_in_escape"] += 1
 print("seed", seed, "cases", len(cases), st)
 for b in bad[:5]:
